@@ -321,6 +321,7 @@ func spaces() []space {
 		{"shapes-depth1", timed(all, rangeN(len(deltas))), []int{1}, []int{0, 1}, smfgen.Shapes(true)},
 		{"shapes-depth2", timed(rangeN(8), []int{0, 1}), []int{2}, []int{0}, smfgen.Shapes(false)},
 		{"alien-chunk-types", timed(rangeN(6), []int{0, 1}), []int{1, 2}, []int{0}, smfgen.AlienTypes()},
+		{"alien-chunk-runs", timed(rangeN(6), []int{0, 1}), []int{1}, []int{0}, smfgen.AlienRuns()},
 	}
 	if ctx.Thorough() {
 		sps = append(sps, space{"all-tokens-3-deltas-depth3-shapes", timed(all, []int{0, 1, 2}), []int{3}, []int{0, 1}, smfgen.Shapes(false)[:0]})
@@ -413,6 +414,20 @@ func valueSweeps() {
 						diff, _, what, c = decodeVia(k, file, exp)
 						if diff != "" {
 							what = "via " + k + ": " + what
+						}
+					}
+				}
+				if diff == "" {
+					// the same file once more, straight after cut copies of it were
+					// read and rejected (what an error path leaves behind)
+					for _, cut := range []int{len(file) / 2, len(file) * 3 / 4, len(file) - 2} {
+						engine.Catch(func() { smf.ReadFrom(bytes.NewReader(file[:cut])) })
+						ctx.Eval()
+						diff, _, what, c = decode(file, exp)
+						if diff != "" {
+							what = fmt.Sprintf("read again after a copy cut at byte %d had been read: %s", cut, what)
+							diff = "after-failed-read:" + diff
+							break
 						}
 					}
 				}
